@@ -135,6 +135,35 @@ func unfoldUProc(to *UProc) (interface{}, func(*UProc, interface{}) error) {
 	}
 }
 
+// UKeys: a state unfolder that KEEPS the member names it is handed (values: scalars, ignored)
+type UKeys struct{ Keys []string }
+
+type keysState struct {
+	gotype.BaseUnfoldState
+	to   *UKeys
+	open bool
+}
+
+func (s *keysState) OnObjectStart(ctx gotype.UnfoldCtx, l int, bt structform.BaseType) error {
+	if s.open {
+		return errUser
+	}
+	s.open = true
+	return nil
+}
+func (s *keysState) OnKey(ctx gotype.UnfoldCtx, key string) error {
+	s.to.Keys = append(s.to.Keys, key)
+	return nil
+}
+func (s *keysState) OnNil(ctx gotype.UnfoldCtx) error              { return nil }
+func (s *keysState) OnBool(ctx gotype.UnfoldCtx, b bool) error     { return nil }
+func (s *keysState) OnString(ctx gotype.UnfoldCtx, v string) error { return nil }
+func (s *keysState) OnInt(ctx gotype.UnfoldCtx, i int64) error     { return nil }
+func (s *keysState) OnUint(ctx gotype.UnfoldCtx, u uint64) error   { return nil }
+func (s *keysState) OnFloat(ctx gotype.UnfoldCtx, f float64) error { return nil }
+func (s *keysState) OnObjectFinished(ctx gotype.UnfoldCtx) error   { ctx.Done(); return nil }
+func unfoldUKeys(to *UKeys) gotype.UnfoldState                     { return &keysState{to: to} }
+
 func unfoldUSelf(to *USelf) (interface{}, func(*USelf, interface{}) error) {
 	return to, func(to *USelf, _ interface{}) error {
 		to.N *= 10
@@ -142,7 +171,7 @@ func unfoldUSelf(to *USelf) (interface{}, func(*USelf, interface{}) error) {
 	}
 }
 
-var userUnfolders = gotype.Unfolders(unfoldUStr, unfoldUI64, unfoldUPt, unfoldUObj, unfoldUProc, unfoldUSelf)
+var userUnfolders = gotype.Unfolders(unfoldUStr, unfoldUI64, unfoldUPt, unfoldUObj, unfoldUProc, unfoldUSelf, unfoldUKeys)
 
 // Options are values: using the shared option values of the harness together with OTHER options in one call must
 // not change what the shared values mean afterwards.  Done once per process, before any case runs: an iterator and an
@@ -182,6 +211,7 @@ func init() {
 		"UProc": {reflect.TypeOf(UProc{}), TD{K: "struct", F: []FD{{Name: "N", T: i64}, {Name: "First", T: i64}}}},
 		"UExp":  {reflect.TypeOf(UExp{}), TD{K: "struct", F: []FD{{Name: "X", T: i64}, {Name: "Y", T: i64}}}},
 		"USelf": {reflect.TypeOf(USelf{}), TD{K: "struct", F: []FD{{Name: "N", T: i64}}}},
+		"UKeys": {reflect.TypeOf(UKeys{}), TD{K: "struct", F: []FD{{Name: "Keys", T: TD{K: "slice", E: []TD{{K: "string"}}}}}}},
 	} {
 		namedTypes[id] = x.t
 		namedUnder[id] = x.u
